@@ -239,6 +239,20 @@ Proof. induction 1; constructor; eauto using elab_proc_shape. Qed.
 Lemma procs_acyclic_eq ps : procs_acyclic ps = deps_acyclic ps.
 Proof. reflexivity. Qed.
 
+Lemma providers_not_self_spec ps : providers_not_self ps = true <-> providers_named ps.
+Proof.
+  unfold providers_not_self, providers_named. rewrite forallb_forall. split.
+  - intros H p n Hp Hn [S E]. specialize (H p Hp). rewrite forallb_forall in H. specialize (H n Hn).
+    rewrite S, E in H. discriminate.
+  - intros H p Hp. apply forallb_forall. intros n Hn. apply negb_true_iff.
+    destruct (is_self n) eqn:S; auto. destruct (String.eqb (ident n) "") eqn:E; auto.
+    apply String.eqb_eq in E. exfalso. apply (H p n Hp Hn). auto.
+Qed.
+Lemma providers_named_shape ps ps' : Forall2 same_shape ps ps' -> providers_named ps -> providers_named ps'.
+Proof.
+  intros F H p' n Hp' Hn. destruct (Forall2_In_r _ _ _ _ F Hp') as [p [Hp [_ Ep]]]. rewrite Ep in Hn. eapply H; eauto.
+Qed.
+
 Lemma existsb_false_forall {A} (f : A -> bool) l : existsb f l = false <-> forall x, In x l -> f x = false.
 Proof.
   split.
@@ -257,7 +271,8 @@ Record procs_prelim_ok (D : tenv) (ps : list procdef) (assumed : list name) : Pr
   pp_uses_once : NoDup (uses_of ps);
   pp_uses_defined : forall x, In x (uses_of ps) -> In x (map ident assumed) \/ In x (all_providers ps);
   pp_assumed_used : forall x, In x (map ident assumed) -> In x (uses_of ps);
-  pp_acyclic : deps_acyclic ps = true
+  pp_acyclic : deps_acyclic ps = true;
+  pp_named : providers_named ps
 }.
 
 Lemma prelim_procs_sound D ps0 as0 ps assumed : prelim_procs D ps0 as0 = TOk (ps, assumed) ->
@@ -269,7 +284,7 @@ Proof.
   step H. pose proof (types_of_wf _ _ G1 (elab_names_typed _ _ _ EN)) as TA.
   step H. apply providers_unique_spec in G2. destruct G2 as [NP _].
   step H. apply negb_true_iff in G2. rewrite existsb_false_forall in G2.
-  step H. destruct a as [ps1 rem]. step H. apply negb_true_iff in G3. step H. rename G4 into AC.
+  step H. destruct a as [ps1 rem]. step H. apply negb_true_iff in G3. step H. rename G4 into AC. step H. rename G4 into PN.
   inversion H; subst. clear H.
   destruct (prelim_procs_types_sound _ _ _ _ _ _ E0) as [F2 [PS [P' [U ND]]]].
   pose proof (elab_names_idents _ _ _ EN) as EI.
@@ -294,6 +309,7 @@ Proof.
     destruct (UC _ I) as [EA _]. rewrite (alookup_const_in _ _ Hx) in EA.
     apply alookup_In in EA. rewrite existsb_false_forall in G3. apply G3 in EA. discriminate.
   - rewrite (deps_acyclic_shape _ _ (elab_procs_shape _ _ _ F2)). rewrite <- procs_acyclic_eq. exact AC.
+  - apply (providers_named_shape _ _ (elab_procs_shape _ _ _ F2)). now apply providers_not_self_spec.
 Qed.
 
 (* ---------------------------------------------------------------- the context of a process *)
